@@ -58,6 +58,33 @@ fn main() {
         std::process::exit(2);
     };
     h8verif::engine::emu::install_panic_hook();
+    let base = Baseline::new();
+    // --- the seconds-long tier: saved (shrunk) failing inputs of earlier findings and of seeded changes
+    // (/verif/corpus/regress/<id>/*.json) are re-judged first, directly, without any generator. On a tree where the
+    // property holds every one of them passes; one that fails is reported like any other violation.
+    if replay.is_none() && id.starts_with('C') && id.len() == 3 && std::env::var("H8VERIF_NO_REGRESS").is_err() {
+        let dir = verif_root().join("corpus").join("regress").join(&id);
+        let mut files: Vec<std::path::PathBuf> = std::fs::read_dir(&dir).map(|rd| rd.flatten().map(|e| e.path()).filter(|p| p.extension().map(|x| x == "json").unwrap_or(false)).collect()).unwrap_or_default();
+        files.sort();
+        let mut failed = 0;
+        let n = files.len();
+        std::env::set_var("H8VERIF_QUIET_REPLAY", "1");
+        for f in files {
+            let Some(v) = std::fs::read_to_string(&f).ok().and_then(|t| serde_json::from_str::<serde_json::Value>(&t).ok()) else { continue };
+            let c = Ctx { tier, seed, threads, findings: Findings::load(&verif_root().join("known_findings.json")), survey: false, replay: Some(v), start: Instant::now(), base: base.clone(), profile: profile_name() };
+            print!("regress {}: ", f.file_name().and_then(|x| x.to_str()).unwrap_or(""));
+            match h8verif::checks::dispatch(&id, &c) {
+                Some(1) => failed += 1,
+                Some(0) | None => {}
+                Some(_) => println!("(not replayable here: skipped)"),
+            }
+        }
+        std::env::remove_var("H8VERIF_QUIET_REPLAY");
+        if failed > 0 {
+            println!("{} {}: {} of {} saved regression inputs fail", id, tier.name(), failed, n);
+            std::process::exit(1);
+        }
+    }
     let ctx = Ctx {
         tier,
         seed,
@@ -66,7 +93,7 @@ fn main() {
         survey,
         replay,
         start: Instant::now(),
-        base: Baseline::new(),
+        base,
         profile: profile_name(),
     };
     match h8verif::checks::dispatch(&id, &ctx) {
